@@ -394,7 +394,7 @@ func init() {
 		Rule: "one case = one history (36/110 blocks, relayer groups of 1..5, elections every 12 s in odd histories, voter removals) in which every block carries up to 14 relayer messages: fresh genuine votes (several per block, each signed for the sequence it will meet), replays of any vote ever produced (accepted or not) re-wrapped in correctly signed transactions, unchanged or with the sequence/epoch fields rewritten to the current values, banked votes moved to a fresh payload or another action, valid quorums on payloads that fail after the signature check (existing key, wrong script, fee far above the maximum, change to a foreign key), and non-voted messages; every sixth block contains failures only. " +
 			"Oracle: an accepted vote must have been signed for exactly the current chain/proposer/sequence/epoch, for that payload, and never accepted before; after every block sequence = previous + number accepted, randao = SHA256 fold over exactly the accepted signatures; blocks without an acceptance leave the bitcoin store hash and (absent an election) the proposer-accepted flag unchanged. Non-trivial = every judged message; distinct = (class, group size, expectation, verdict).",
 		Assume: []string{"votes are resolved against the member keys the harness generated"},
-		Cases:  func(tier string) int { return map[string]int{"quick": 32, "thorough": 200}[tier] },
+		Cases:  func(tier string) int { return map[string]int{"quick": 48, "thorough": 200}[tier] },
 		Run:    func(c *vc.Ctx, i int) { c02History(c, i) },
 	})
 }
